@@ -8,7 +8,7 @@ def run(ctx):
     ctx.build()
     ctx.mc("MC_MapMatch", "MC_MapMatch.cfg" if quick else "MC_MapMatch_t.cfg", timeout=3000)
     scns = run_harness_scenarios(ctx, "match", [p["scenario"] for p in pinned(ctx, "match")])
-    out = ctx.harness(["match", "--random", "1500" if quick else "30000"])
+    out = ctx.harness(["match", "--random", "1500" if quick else "150000"])
     scns += common.split_scenarios(out)
     for s, evs in scns:
         if len(s["cands"]) >= 2 and (s["tol"]["on"] or s.get("allowed_on") or s.get("veh_on")):
